@@ -236,8 +236,8 @@ impl Token {
         res.lineno == old(self).lineno_token_starts + 1, res.col_begin == old(self).col_token_starts,   // the token is reported where it begins
         final(self).col_token_starts == old(self).col_token_starts + cont@.len(),
         %s""" % EMIT_FRAME, post=emit_post)
-    add('emit_multiline_token', """requires col_begin + cont@.len() <= 0x7FFF_FFFF, old(self).col_token_starts + cont@.len() <= 0x7FFF_FFFF, old(self).lineno_token_starts <= u32::MAX - 2,
-    ensures res.kind == kind, res.content@ == cont@, res.col_begin == col_begin,
+    add('emit_multiline_token', """requires col_begin + cont@.len() <= 0x7FFF_FFFF, old(self).col_token_starts + cont@.len() <= 0x7FFF_FFFF, ln_begin < u32::MAX,
+    ensures res.kind == kind, res.content@ == cont@, res.col_begin == col_begin, res.lineno == ln_begin + 1,   // reported at the line and column handed in
         final(self).col_token_starts == old(self).col_token_starts + cont@.len(),
         %s""" % EMIT_FRAME, post=emit_post)
     add('sync_col', """requires lexer_wf(*old(self)),
@@ -324,7 +324,7 @@ impl Token {
             lexer_wf(*self), same_source(*self, *old(self)), self.cursor >= old(self).cursor, self.cursor <= self.chars@.len(),
             self.interpol_stack@ == old(self).interpol_stack@,
             self.lineno_token_starts >= old(self).lineno_token_starts, self.lineno_token_starts - old(self).lineno_token_starts <= self.cursor - old(self).cursor,
-            self.col_token_starts <= 0x1FFF_FFFF, col_begin == old(self).col_token_starts,
+            self.col_token_starts <= 0x1FFF_FFFF, col_begin == old(self).col_token_starts, ln_begin == old(self).lineno_token_starts,
             old(self).col_token_starts <= 0x1FFF_FFFF, old(self).lineno_token_starts < 0x1FFF_FFFF,
             s@.len() <= 3 + 2 * (self.cursor - old(self).cursor),
             line_fresh(*old(self)) ==> line_fresh(*self),
@@ -332,29 +332,33 @@ impl Token {
     add('lex_multi_line_str_', ML_PRE + """
     ensures %s final(self).lineno_token_starts >= old(self).lineno_token_starts, final(self).interpol_stack@.len() >= 1,
         (res is Ok && line_fresh(*old(self))) ==> line_fresh(*final(self)),
-        res matches Ok(t) ==> t.col_begin == old(self).col_token_starts,""" % (FRAME + PLAIN), loops=[(0, ML_INV)])
+        // the literal is reported at the line and column where it begins, whatever line breaks and escapes it contains
+        res matches Ok(t) ==> t.col_begin == old(self).col_token_starts && t.lineno == old(self).lineno_token_starts + 1,""" % (FRAME + PLAIN), loops=[(0, ML_INV)])
     add('lex_multi_line_str', ML_PRE + """
     ensures %s final(self).col_token_starts == final(self).cursor - final(self).line_start_cursor, final(self).lineno_token_starts >= old(self).lineno_token_starts, final(self).interpol_stack@.len() >= 1,
         // after a multi-line string the next token's column counts from the start of the string's LAST line
         (res is Ok && line_fresh(*old(self))) ==> pos_ok(*final(self)),
-        res matches Ok(t) ==> t.col_begin == old(self).col_token_starts,""" % (FRAME + PLAIN))
+        res matches Ok(t) ==> t.col_begin == old(self).col_token_starts && t.lineno == old(self).lineno_token_starts + 1,""" % (FRAME + PLAIN))
     IM_PRE = "requires lexer_wf(*old(self)), old(self).cursor >= 1, old(self).cursor <= old(self).chars@.len(), old(self).col_token_starts <= 0x1FFF_FFFF, old(self).lineno_token_starts < 0x1FFF_FFFF,"
     IM_INV = """invariant
             lexer_wf(*self), same_source(*self, *old(self)), self.cursor >= old(self).cursor, self.cursor <= self.chars@.len(),
             self.interpol_stack@ == old(self).interpol_stack@,
             self.lineno_token_starts >= old(self).lineno_token_starts, self.lineno_token_starts - old(self).lineno_token_starts <= self.cursor - old(self).cursor,
-            self.col_token_starts <= 0x1FFF_FFFF,
+            self.col_token_starts <= 0x1FFF_FFFF, col_begin == old(self).col_token_starts, ln_begin == old(self).lineno_token_starts,
             old(self).col_token_starts <= 0x1FFF_FFFF, old(self).lineno_token_starts < 0x1FFF_FFFF,
             s@.len() <= 1 + 2 * (self.cursor - old(self).cursor),
             line_fresh(*old(self)) ==> line_fresh(*self),
         decreases self.chars@.len() - self.cursor,"""
     add('lex_interpolation_mid_', IM_PRE + """
     ensures %s final(self).lineno_token_starts >= old(self).lineno_token_starts,
-        (res is Ok && line_fresh(*old(self))) ==> line_fresh(*final(self)),""" % (FRAME + PLAIN), loops=[(0, IM_INV)])
+        (res is Ok && line_fresh(*old(self))) ==> line_fresh(*final(self)),
+        // the piece is reported where its `}` stands, even if it runs over several lines
+        res matches Ok(t) ==> t.col_begin == old(self).col_token_starts && t.lineno == old(self).lineno_token_starts + 1,""" % (FRAME + PLAIN), loops=[(0, IM_INV)])
     add('lex_interpolation_mid', IM_PRE + """
     ensures %s final(self).col_token_starts == final(self).cursor - final(self).line_start_cursor, final(self).lineno_token_starts >= old(self).lineno_token_starts,
         // after the tail of an interpolated string the next token's column is exact
-        (res is Ok && line_fresh(*old(self))) ==> pos_ok(*final(self)),""" % (FRAME + PLAIN))
+        (res is Ok && line_fresh(*old(self))) ==> pos_ok(*final(self)),
+        res matches Ok(t) ==> t.col_begin == old(self).col_token_starts && t.lineno == old(self).lineno_token_starts + 1,""" % (FRAME + PLAIN))
     # ---------------------------------------------------------------- number and name lexers
     # A single-line token lexer is entered with `n0` chars of the token already consumed and collected; it consumes more chars of the
     # same line and emits exactly the collected text: the column advances by the source text consumed, no line break is swallowed.
